@@ -26,14 +26,24 @@ mention and that therefore must not change the number of executions:
                               middleware, after the retry middleware (kinds: see MW_KINDS); mw_late: they are added
                               after the Receiver was constructed
   retry_cls: "base"|"sub"     SimpleRetryMiddleware itself or a trivial subclass of it
-Nothing of /repo is edited or re-implemented: the env only chooses which real objects are built and how they are called."""
+  fmt: "proxy"|"json"         the broker's formatter: the default ProxyFormatter (+ serializer) or taskiq's JSONFormatter
+Nothing of /repo is edited or re-implemented: the env only chooses which real objects are built and how they are called.
+
+"typed" (optional, see harness/retry_typed.py): the task function has annotated parameters (pydantic models with constant /
+default_factory defaults, dataclasses, containers of them, plain types, none) and the caller passes structured values
+(model / dataclass instances with fields left unset, dicts, lists, primitives; positionally, by keyword, omitted, through
+*rest / **extra).  The function records the canonical form of what it received on EVERY attempt: exec["args"] is then
+[[], {parameter: canonical value}] and the observation carries "typed_expect" ({parameter: canonical value | None}, the
+claim about the first attempt) and "typed_src" (the function's source text).  case["args"] / case["kwargs"] are unused."""
 import asyncio
 
 import labels_driver as LD
+import retry_typed as RT
 import vloop
 from taskiq import Context, SimpleRetryMiddleware, TaskiqDepends, TaskiqMiddleware
 from taskiq.acks import AckableMessage, AcknowledgeType
 from taskiq.exceptions import NoResultError
+from taskiq.formatters.json_formatter import JSONFormatter
 from taskiq.receiver import Receiver
 
 ACT = {"F": "fail", "S": "ok", "N": "noresult"}
@@ -112,8 +122,9 @@ MW_KINDS = dict(plain=MwPlain, sync_err=MwSyncErr, async_err=MwAsyncErr, subst=M
                 copy=MwCopy, post_save_raises=MwPostSaveRaises)
 
 
-def make_body(scen, env):
-    """the task function; same plan stepping / logging as labels_driver's body, in the shape env["fn"] asks for"""
+def make_body(scen, env, typed=None):
+    """the task function; same plan stepping / logging as labels_driver's body, in the shape env["fn"] asks for; with
+    `typed`, the function with annotated parameters written by retry_typed.function_source"""
     fn = env.get("fn", "async")
     teardown = scen.teardown
 
@@ -169,7 +180,11 @@ def make_body(scen, env):
             perform(act)
         return act
 
-    if fn == "async":
+    if typed is not None:
+        body, scen.typed_src = RT.make_function(typed, fn, dict(
+            next_act=next_act, record=record, perform=perform, aperform=aperform, agen_dep=agen_dep, gen_dep=gen_dep,
+            gen_swallow=gen_swallow))
+    elif fn == "async":
         async def body(*args, ctx: Context = TaskiqDepends(), **kwargs):
             act = next_act()
             record(act, ctx, args, kwargs)
@@ -273,11 +288,13 @@ class EnvReceiver:
 
 
 class EnvScenario(LD.Scenario):
-    def __init__(self, case, uid, env, cli_kw):
+    def __init__(self, case, uid, env, cli_kw, typed=None):
         super().__init__(case, uid)
-        self.env, self.acks, self.teardown = env, [], []
-        body = make_body(self, env)
+        self.env, self.acks, self.teardown, self.typed_src = env, [], [], None
+        body = make_body(self, env, typed)
         for b in self.brokers:
+            if env.get("fmt") == "json":
+                b.with_formatter(JSONFormatter())
             for name in self.names:
                 t = b.find_task(name)
                 if t is not None:
@@ -317,7 +334,8 @@ _UID = [0]
 
 def run_env(lc, case, opts):
     """labels_driver.run_case for the fixed C11 history (kicker, with_task_id, kiq) on an EnvScenario"""
-    env = case["env"]
+    env = case.get("env") or {}
+    typed = case.get("typed")
     cli_kw = None
     if env.get("cli") is not None:
         import cli_glue
@@ -328,11 +346,15 @@ def run_env(lc, case, opts):
     op = lc["ops"][-1]
 
     async def main(loop):
-        sc = EnvScenario(lc, uid, env, cli_kw)
+        sc = EnvScenario(lc, uid, env, cli_kw, typed)
         k = sc.tasks[0].kicker()
         k.with_task_id("c0")
+        args, kwargs, expect = op["args"], op["kwargs"], None
+        if typed is not None:
+            RT.reset()
+            args, kwargs, expect = RT.build_call(typed, env.get("validate", True))   # what the user asked for (--no-parse)
         try:
-            h = await k.kiq(*op["args"], **op["kwargs"])
+            h = await k.kiq(*args, **kwargs)
             kerr, hid = None, h.task_id
         except Exception as e:  # noqa: BLE001
             kerr, hid = "%s: %s / %r" % (type(e).__name__, e, e.__cause__), None
@@ -345,6 +367,7 @@ def run_env(lc, case, opts):
                        wire=LD.wire_of(sc.brokers[b], m))
             rec["chain"] = await sc.deliver_chain(b, m, rec["plan"])
         return {"names": sc.names, "sent": [rec], "final": sc.snapshot(), "acks": list(sc.acks),
+                "typed_expect": expect, "typed_src": sc.typed_src,
                 "teardown": list(sc.teardown), "cli_kw": None if cli_kw is None else {k: repr(v) for k, v in sorted(cli_kw.items())},
                 "other_str": {k: [ord(c) for c in str(LD.dec({"t": "other", "k": k}))] for k in LD.OTHER_KINDS}}
 
@@ -359,7 +382,8 @@ def run_case(case, opts):
               ops=[dict(op="kicker", t=0), dict(op="with_task_id", k=0, id="c0"),
                    dict(op="kiq", k=0, plan=[fail_act if o == "F" else ACT[o] for o in case["outs"]],
                         args=case.get("args", []), kwargs=case.get("kwargs", {}))])
-    o = LD.run_case(lc, opts) if env is None else run_env(lc, case, opts)
+    plain = env is None and case.get("typed") is None
+    o = LD.run_case(lc, opts) if plain else run_env(lc, case, opts)
     s = o["sent"][0]
     execs, undelivered = [], 0
     for at in s["chain"]:
@@ -373,6 +397,8 @@ def run_case(case, opts):
                           resent_wire=[m["wire"] for m in at["resent"]], raised=at["callback_raised"], nbody=at["nbody"]))
     out = dict(sent_id=s.get("task_id"), err=s["err"], wire=s.get("wire"), execs=execs, undelivered=undelivered,
                final_task_labels=o["final"][0], other_str=o["other_str"])
-    if env is not None:
+    if not plain:
         out.update(acks=o["acks"], teardown=o["teardown"], cli_kw=o["cli_kw"])
+    if case.get("typed") is not None:
+        out.update(typed_expect=o["typed_expect"], typed_src=o["typed_src"])
     return out
